@@ -102,6 +102,9 @@ func c09(args []string) int {
 			out.Matrix[gen.FeNames[fe]] = m
 		}
 	}
+	if f.Shard == 0 {
+		ctxReuse(out, "C09")
+	}
 	out.Finish(f)
 	return 0
 }
